@@ -1259,9 +1259,9 @@ class FuncContent:
             try:
                 self.parse_self_command(0)
             except EXCEPTIONS as normal_error:
-                token = self.command[0]
-                if getattr(normal_error, "priority", False):
+                if getattr(normal_error, "priority", False) or not self.command:
                     raise normal_error
+                token = self.command[0]
                 if (
                     token.string not in VANILLA_COMMANDS
                     and token.string not in Header().commands
